@@ -16,7 +16,7 @@ from __future__ import annotations
 import ast
 from typing import Dict, List, Optional
 
-from sa.loader import AnalysisError, dotted_name, norm_text
+from sa.loader import AnalysisError, Unsupported, dotted_name, norm_text
 from sa.report import where
 from sa.util import backward_slice, local_assignments
 
@@ -150,6 +150,469 @@ def self_check():
         raise AnalysisError(f"C10.D self-check failed: flagged {flagged}")
 
 
+# ---------------------------------------------------------------------------
+# C10.J — the joint density classifies each component against that component's own sample shape and adds components only
+# ---------------------------------------------------------------------------
+JOINT = 'torchtree.distributions.joint_distribution'
+
+
+def check_joint(ctx, rep):
+    m = ctx.prog.module(JOINT)
+    cls = m.classes.get('JointDistributionModel')
+    fn = next((f for f in cls.body if isinstance(f, ast.FunctionDef) and f.name == 'log_prob'), None) if cls is not None else None
+    if fn is None:
+        raise AnalysisError('JointDistributionModel.log_prob not found')
+    loops = [n for n in fn.body if isinstance(n, ast.For) and isinstance(n.target, ast.Name) and 'callables' in ast.unparse(n.iter)]
+    if len(loops) != 1:
+        raise AnalysisError('JointDistributionModel.log_prob: loop over the component callables not found')
+    loop = loops[0]
+    comp = loop.target.id
+    lp_names = {st.targets[0].id for st in loop.body if isinstance(st, ast.Assign) and isinstance(st.targets[0], ast.Name) and isinstance(st.value, ast.Call)
+                and isinstance(st.value.func, ast.Name) and st.value.func.id == comp}
+    if not lp_names:
+        raise AnalysisError('JointDistributionModel.log_prob: component evaluation `lp = distr()` not found')
+    # names bound to a sample shape, and whose it is: in statement order (a loop-body definition wins over one before the loop)
+    owner = {}
+    for st in fn.body:
+        if st is loop:
+            break
+        if isinstance(st, ast.Assign) and isinstance(st.targets[0], ast.Name) and isinstance(st.value, ast.Attribute) and st.value.attr == 'sample_shape':
+            owner[st.targets[0].id] = ast.unparse(st.value.value)
+    for st in loop.body:
+        if isinstance(st, ast.Assign) and isinstance(st.targets[0], ast.Name) and isinstance(st.value, ast.Attribute) and st.value.attr == 'sample_shape':
+            owner[st.targets[0].id] = ast.unparse(st.value.value)
+
+    def whose(e):
+        if isinstance(e, ast.Attribute) and e.attr == 'sample_shape':
+            return ast.unparse(e.value)
+        if isinstance(e, ast.Name):
+            return owner.get(e.id)
+        return None
+    n = 0
+    for t in ast.walk(loop):
+        if not isinstance(t, ast.Compare):
+            continue
+        sides = [t.left] + list(t.comparators)
+        # `lp.shape == <sample shape>` and `len(lp.shape) - len(<sample shape>) > 0`: the classification of the component's value
+        mentions_lp_shape = any(isinstance(x, ast.Attribute) and x.attr == 'shape' and isinstance(x.value, ast.Name) and x.value.id in lp_names for s_ in sides for x in ast.walk(s_))
+        shapes = [w for s_ in sides for x in ast.walk(s_) for w in [whose(x)] if w is not None and not (isinstance(getattr(x, '_parent', None), ast.Attribute))]
+        direct = isinstance(t.left, ast.Attribute) and t.left.attr == 'shape' and isinstance(t.left.value, ast.Name) and t.left.value.id in lp_names
+        rank_diff = any(isinstance(x, ast.BinOp) and isinstance(x.op, ast.Sub) for s_ in sides for x in ast.walk(s_))
+        if not (mentions_lp_shape and shapes and (direct or rank_diff)):
+            continue
+        n += 1
+        ok = all(w == comp for w in shapes)
+        rep.check('C10.J', f"JointDistributionModel.log_prob::component-classified-by-its-own-sample-shape::{norm_text(t)[:50]}", ok, where(m, t), {'sample_shape_of': shapes},
+                  f"`{norm_text(t)[:70]}` compares the component's value with the sample shape of `{[w for w in shapes if w != comp]}` instead of the component's own: an unbatched "
+                  f"component whose event size happens to equal the number of samples is taken for one value per sample and its terms are spread over the samples")
+    if n < 2:
+        rep.incomplete('C10.J', 'JointDistributionModel.log_prob::classification', where(m, fn), f"only {n} shape tests of the component value recognised")
+    rets = [r for r in ast.walk(fn) if isinstance(r, ast.Return) and r.value is not None]
+    ok = len(rets) == 1 and ast.unparse(rets[0].value).replace(' ', '') in ('torch.cat(log_p,-1).sum(-1)', 'torch.cat(log_p,dim=-1).sum(-1)', 'torch.cat(log_p,-1).sum(dim=-1)')
+    rep.check('C10.J', 'JointDistributionModel.log_prob::components-added-along-the-last-axis-only', ok, where(m, fn), {'returned': norm_text(rets[0].value)[:80] if rets else None},
+              "the joint density must concatenate the per-component terms along the last axis and sum that axis only")
+
+
+# ---------------------------------------------------------------------------
+# C10.P — axes are addressed from the end
+# ---------------------------------------------------------------------------
+AXIS_OPS = {'unsqueeze', 'squeeze', 'sum', 'mean', 'prod', 'cumsum', 'logsumexp', 'amax', 'amin', 'transpose', 'flip', 'softmax', 'log_softmax', 'diff', 'select', 'permute', 'movedim',
+            'flatten', 'argsort', 'sort', 'unbind', 'cat', 'stack'}
+FRONT_TABLE = {
+    ('torchtree.evolution.substitution_model.general.EmpiricalSubstitutionModel.create_rate_matrix', 'torch.sum(Q, dim=1)'):
+        "builds the fixed rate matrix once in the constructor from JSON numbers: Q is created as torch.zeros((n, n)), rank 2 by construction",
+}
+
+
+def check_front_axes(ctx, rep):
+    n = 0
+    used = set()
+    for mname, m in sorted(ctx.prog.modules.items()):
+        if not any(mname.startswith(p) or mname == p.rstrip('.') for p in SCOPE_PACKAGES):
+            continue
+        fns = []
+        for cname, cnode in m.classes.items():
+            for st in cnode.body:
+                if isinstance(st, ast.FunctionDef) and st.name not in SKIP_METHODS:
+                    fns.append((f"{mname}.{cname}.{st.name}", st))
+        for fname, f in m.functions.items():
+            if fname not in SKIP_METHODS:
+                fns.append((f"{mname}.{fname}", f))
+        for qual, fn in fns:
+            defs = local_assignments(fn)
+            for c in ast.walk(fn):
+                if not (isinstance(c, ast.Call) and isinstance(c.func, ast.Attribute) and c.func.attr in AXIS_OPS):
+                    continue
+                torch_fn = isinstance(c.func.value, ast.Name) and c.func.value.id == 'torch'
+                operand = (c.args[0] if c.args else None) if torch_fn else c.func.value
+                args = c.args[1:] if torch_fn else c.args
+                def is_neg(a):
+                    return isinstance(a, ast.UnaryOp) and isinstance(a.op, ast.USub) and isinstance(a.operand, ast.Constant)
+                cands = list(args) + [k.value for k in c.keywords if k.arg in ('dim', 'axis', 'dim0', 'dim1')]
+                dims = [a for a in cands if isinstance(a, ast.Constant) and isinstance(a.value, int) and not isinstance(a.value, bool)]
+                if operand is None or not (dims or any(is_neg(a) for a in cands)):
+                    continue
+                n += 1
+                front = [d.value for d in dims if d.value >= 1]
+                if not front:
+                    continue
+                txt = norm_text(c)
+                key = f"{qual.replace('torchtree.', '')}::{txt[:60]}"
+                op_for_batch = operand.elts[0] if isinstance(operand, (ast.List, ast.Tuple)) and operand.elts else operand
+                if not may_be_batched(op_for_batch, fn, defs):
+                    rep.ok('C10.P', key, where(m, c), {'class': 'operand free of sample dimensions'})
+                elif (qual, txt) in FRONT_TABLE:
+                    used.add((qual, txt))
+                    rep.ok('C10.P', key, where(m, c), {'class': 'confirmed by reading', 'reason': FRONT_TABLE[(qual, txt)]})
+                else:
+                    rep.bad('C10.P', key, where(m, c), {'axes': front},
+                            f"{qual.split('.')[-2]}.{qual.split('.')[-1]}: `{txt[:70]}` addresses axis {front} counted from the front of a value that can carry sample dimensions: "
+                            f"the position of an axis from the front depends on how many sample dimensions there are ([S] or [S, K]); with a different number the operation hits a "
+                            f"sample axis and values of different samples are combined or misaligned")
+    rep.analysed['axis_operations_with_constant_axis'] = n
+    if n < 150:
+        rep.incomplete('C10.P', '*', '', f"only {n} axis operations with a constant axis found")
+    for qual, txt in sorted(set(FRONT_TABLE) - used):
+        rep.undecided('C10.P', f"table::{qual}::{txt[:40]}", '', 'frozen table entry no longer matches any construct (the table must be re-confirmed)')
+
+# ---------------------------------------------------------------------------
+# C10.R — ranks relative to the sample shape agree in element-wise operations
+# ---------------------------------------------------------------------------
+RANK_TABLE = {
+    # attribute chains with a documented layout: rank = len(sample_shape) + k
+    'self.clock_model.rates': (1, "branch model rates are [..., branch]"),
+}
+SHAPE_FROM_SAMPLE = ('sample_shape', 'batch_shape')
+
+
+class Ranks:
+    """flow-sensitive ranks of the form len(sample_shape) + k for values shaped by `<sample shape> + (…)`"""
+
+    def __init__(self, fn):
+        self.fn = fn
+        self.reports = []
+        self.decided = 0
+        self._seen = set()
+
+    def shape_rank(self, e, env):
+        """rank of a shape expression `sample_shape + (a, b)`"""
+        if isinstance(e, ast.BinOp) and isinstance(e.op, ast.Add):
+            l, r = e.left, e.right
+            base = None
+            if isinstance(l, ast.Name) and l.id in SHAPE_FROM_SAMPLE or (isinstance(l, ast.Attribute) and l.attr in SHAPE_FROM_SAMPLE):
+                base = 0
+            elif isinstance(l, ast.BinOp):
+                base = self.shape_rank(l, env)
+            if base is None:
+                return None
+            if isinstance(r, ast.Tuple):
+                return base + len(r.elts)
+            if isinstance(r, ast.Call) and ast.unparse(r.func) in ('torch.Size',) and r.args and isinstance(r.args[0], (ast.List, ast.Tuple)):
+                return base + len(r.args[0].elts)
+            return None
+        return None
+
+    def rank(self, e, env):
+        txt = ast.unparse(e) if isinstance(e, ast.Attribute) else None
+        if txt in RANK_TABLE:
+            return RANK_TABLE[txt][0]
+        if isinstance(e, ast.Name):
+            return env.get(e.id)
+        if isinstance(e, ast.UnaryOp):
+            return self.rank(e.operand, env)
+        if isinstance(e, ast.Call) and isinstance(e.func, ast.Attribute):
+            a = e.func.attr
+            torch_fn = isinstance(e.func.value, ast.Name) and e.func.value.id == 'torch'
+            if a in ('expand', 'reshape', 'view') and not torch_fn and len(e.args) == 1:
+                return self.shape_rank(e.args[0], env)
+            if torch_fn and a in ('zeros', 'ones', 'full', 'empty') and e.args:
+                return self.shape_rank(e.args[0], env)
+            recv = (e.args[0] if e.args else None) if torch_fn else e.func.value
+            rest = e.args[1:] if torch_fn else e.args
+            if recv is None:
+                return None
+            if a == 'unsqueeze' and rest:
+                r = self.rank(recv, env)
+                return None if r is None else r + 1
+            if a == 'squeeze' and rest:
+                r = self.rank(recv, env)
+                return None if r is None else r - 1
+            if a in ('log', 'exp', 'clone', 'abs', 'sqrt', 'contiguous', 'to', 'double', 'float'):
+                return self.rank(recv, env)
+            if a == 'cat' and torch_fn and isinstance(e.args[0], (ast.Tuple, ast.List)):
+                rs = [self.rank(x, env) for x in e.args[0].elts]
+                known = [r for r in rs if r is not None]
+                if len(known) == len(rs) and known:
+                    self.decided += 1
+                    if len(set(known)) > 1 and id(e) not in self._seen:
+                        self._seen.add(id(e))
+                        self.reports.append((e, known))
+                    return known[0]
+                return None
+            return None
+        if isinstance(e, ast.BinOp) and isinstance(e.op, (ast.Add, ast.Sub, ast.Mult, ast.Div)):
+            l, r = self.rank(e.left, env), self.rank(e.right, env)
+            if l is not None and r is not None:
+                if id(e) not in self._seen:
+                    self._seen.add(id(e))
+                    self.decided += 1
+                    if l != r:
+                        self.reports.append((e, [l, r]))
+                return max(l, r)
+            return None
+        return None
+
+    def block(self, stmts, env):
+        for st in stmts:
+            env = self.stmt(st, env)
+        return env
+
+    def stmt(self, st, env):
+        if isinstance(st, ast.Assign):
+            for x in ast.walk(st.value):
+                if isinstance(x, (ast.BinOp, ast.Call)):
+                    self.rank(x, env)
+            v = self.rank(st.value, env)
+            env = dict(env)
+            for t in st.targets:
+                if isinstance(t, ast.Name):
+                    env[t.id] = v
+            return env
+        if isinstance(st, ast.If):
+            a, b = self.block(st.body, dict(env)), self.block(st.orelse, dict(env))
+            return {k: (a.get(k) if a.get(k) == b.get(k) else None) for k in set(a) | set(b)}
+        if isinstance(st, (ast.For, ast.While)):
+            a = self.block(st.body, dict(env))
+            return {k: (a.get(k) if a.get(k) == env.get(k) else None) for k in set(a) | set(env)}
+        if isinstance(st, ast.With):
+            return self.block(st.body, env)
+        if isinstance(st, (ast.Return, ast.Expr)) and st.value is not None:
+            for x in ast.walk(st.value):
+                if isinstance(x, (ast.BinOp, ast.Call)):
+                    self.rank(x, env)
+        return env
+
+    def run(self):
+        self.block(self.fn.body, {})
+        return self.reports
+
+
+RANK_POSITIVE = """
+def _call(self):
+    sample_shape = self.sample_shape
+    bl = self.tree_model.branch_lengths()
+    if bl.dim() == 1:
+        a = self.clock_model.rates * bl.expand(sample_shape + (1, -1))
+        b = self.clock_model.rates * bl.expand(sample_shape + (-1,))
+    z = torch.cat((b, torch.zeros(sample_shape + (1,))), -1)
+    return a, z
+"""
+
+
+def check_ranks(ctx, rep):
+    t = ast.parse(RANK_POSITIVE)
+    got = [ast.unparse(r[0])[:40] for r in Ranks(t.body[0]).run()]
+    if got != ['self.clock_model.rates * bl.expand(sampl']:
+        raise AnalysisError(f"C10.R self-check failed: {got}")
+    n = 0
+    for mname, m in sorted(ctx.prog.modules.items()):
+        if not any(mname.startswith(p) or mname == p.rstrip('.') for p in SCOPE_PACKAGES):
+            continue
+        for fn in ast.walk(m.tree):
+            if not isinstance(fn, ast.FunctionDef):
+                continue
+            rk = Ranks(fn)
+            reports = rk.run()
+            n += rk.decided
+            cl = getattr(fn, '_parent', None)
+            scope = f"{cl.name}.{fn.name}" if isinstance(cl, ast.ClassDef) else fn.name
+            for node, ranks in reports:
+                txt = norm_text(node)[:70]
+                rep.bad('C10.R', f"{mname.replace('torchtree.', '')}::{scope}::{txt}", where(m, node), {'ranks_beyond_sample_shape': ranks},
+                        f"{scope}: `{txt}` combines values of rank len(sample_shape)+{ranks[0]} and len(sample_shape)+{ranks[1]}: broadcasting aligns the shorter one's sample axes "
+                        f"with other axes of the longer one, so the result has an extra [S] axis and samples are combined with each other (a later reshape hides it)")
+            if rk.decided and not reports:
+                rep.ok('C10.R', f"{mname.replace('torchtree.', '')}::{scope}::ranks-agree", where(m, fn), {'operations_with_known_ranks': rk.decided})
+    rep.analysed['rank_operations_classified'] = n
+    if n < 2:
+        rep.incomplete('C10.R', '*', '', f"only {n} operations with both ranks known")
+
+# ---------------------------------------------------------------------------
+# C10.S — Distribution._sample_shape, folded over the abstract shape cases
+# ---------------------------------------------------------------------------
+class _Sh:
+    """evaluates the shape arithmetic of a `_sample_shape` method over abstract shapes (tuples of dimension symbols): len, comparisons, slices, ± on ints, if / conditional
+    expressions.  Anything else is refused (Unsupported → the rule is undecided)."""
+
+    def __init__(self, binds):
+        self.binds = binds   # source text of an expression -> abstract value
+
+    def ev(self, e, env):
+        txt = ast.unparse(e)
+        if txt in self.binds:
+            return self.binds[txt]
+        if isinstance(e, ast.Name):
+            if e.id in env:
+                return env[e.id]
+            raise Unsupported(e, f"unbound name {e.id}")
+        if isinstance(e, ast.Constant) and isinstance(e.value, (int, bool)):
+            return e.value
+        if isinstance(e, ast.UnaryOp) and isinstance(e.op, ast.USub):
+            return -self.ev(e.operand, env)
+        if isinstance(e, ast.UnaryOp) and isinstance(e.op, ast.Not):
+            return not self.ev(e.operand, env)
+        if isinstance(e, ast.BinOp) and isinstance(e.op, (ast.Add, ast.Sub)):
+            l, r = self.ev(e.left, env), self.ev(e.right, env)
+            if isinstance(l, tuple) != isinstance(r, tuple):
+                raise Unsupported(e, 'mixed tuple / int arithmetic')
+            return l + r if isinstance(e.op, ast.Add) else l - r
+        if isinstance(e, ast.Call) and isinstance(e.func, ast.Name) and e.func.id == 'len' and len(e.args) == 1:
+            return len(self.ev(e.args[0], env))
+        if isinstance(e, ast.Call) and isinstance(e.func, ast.Name) and e.func.id in ('max', 'min') and all(not isinstance(a, ast.Starred) for a in e.args):
+            vals = [self.ev(a, env) for a in e.args]
+            key = next((k.value for k in e.keywords if k.arg == 'key'), None)
+            if key is not None and ast.unparse(key) != 'len':
+                raise Unsupported(e, 'max/min key')
+            f = max if e.func.id == 'max' else min
+            return f(vals, key=len) if key is not None else f(vals)
+        if isinstance(e, ast.Call) and ast.unparse(e.func) == 'torch.Size' and len(e.args) == 1:
+            return tuple(self.ev(a, env) for a in e.args[0].elts) if isinstance(e.args[0], (ast.List, ast.Tuple)) else self.ev(e.args[0], env)
+        if isinstance(e, ast.Tuple):
+            return tuple(self.ev(a, env) for a in e.elts)
+        if isinstance(e, ast.Compare) and len(e.ops) == 1:
+            l, r = self.ev(e.left, env), self.ev(e.comparators[0], env)
+            op = e.ops[0]
+            table = {ast.Gt: lambda a, b: a > b, ast.GtE: lambda a, b: a >= b, ast.Lt: lambda a, b: a < b, ast.LtE: lambda a, b: a <= b,
+                     ast.Eq: lambda a, b: a == b, ast.NotEq: lambda a, b: a != b}
+            if type(op) not in table:
+                raise Unsupported(e, 'comparison')
+            return table[type(op)](l, r)
+        if isinstance(e, ast.BoolOp):
+            vals = [self.ev(v, env) for v in e.values]
+            return all(vals) if isinstance(e.op, ast.And) else any(vals)
+        if isinstance(e, ast.IfExp):
+            return self.ev(e.body, env) if self.ev(e.test, env) else self.ev(e.orelse, env)
+        if isinstance(e, ast.Subscript):
+            base = self.ev(e.value, env)
+            if not isinstance(base, tuple):
+                raise Unsupported(e, 'subscript of a non-shape')
+            if isinstance(e.slice, ast.Slice):
+                lo = self.ev(e.slice.lower, env) if e.slice.lower is not None else None
+                hi = self.ev(e.slice.upper, env) if e.slice.upper is not None else None
+                if e.slice.step is not None:
+                    raise Unsupported(e, 'slice step')
+                return base[lo:hi]
+            i = self.ev(e.slice, env)
+            if not isinstance(i, int) or not (-len(base) <= i < len(base)):
+                raise Unsupported(e, 'index out of the abstract shape')
+            return base[i]
+        raise Unsupported(e, f"`{txt[:40]}` outside the shape vocabulary")
+
+    def run(self, stmts, env):
+        for st in stmts:
+            if isinstance(st, ast.Expr) and isinstance(st.value, ast.Constant):
+                continue
+            if isinstance(st, ast.Assign) and len(st.targets) == 1 and isinstance(st.targets[0], ast.Name):
+                env[st.targets[0].id] = self.ev(st.value, env)
+            elif isinstance(st, ast.If):
+                r = self.run(st.body if self.ev(st.test, env) else st.orelse, env)
+                if r is not None:
+                    return r
+            elif isinstance(st, ast.Return) and st.value is not None:
+                v = self.ev(st.value, env)
+                return ('ret', v)
+            else:
+                raise Unsupported(st, f"statement `{ast.unparse(st)[:40]}` outside the shape vocabulary")
+        return None
+
+
+SHAPE_CASES = [
+    # (shape of x, batch shape of the distribution's parameters, expected sample shape, what the case is)
+    (('N',), (), (), 'unbatched x, scalar parameters'),
+    (('N',), ('1',), (), 'unbatched x, one-element parameters'),
+    (('N',), ('N',), (), 'unbatched x, element-wise parameters'),
+    (('S', 'N'), (), ('S',), 'batched x, scalar parameters'),
+    (('S', 'N'), ('1',), ('S',), 'batched x, unbatched one-element parameters'),
+    (('S', 'N'), ('N',), ('S',), 'batched x, unbatched element-wise parameters'),
+    (('S', 'K', 'N'), ('1',), ('S', 'K'), 'x batched twice, unbatched parameters'),
+    (('S', 'N'), ('S', '1'), ('S',), 'x and parameters batched together (sampled hyperparameters)'),
+    (('S', '1'), ('S', '1'), ('S',), 'one-element x and parameters batched together'),
+    (('S', 'N'), ('S', 'N'), ('S',), 'x and element-wise parameters batched together'),
+    (('S', 'K', 'N'), ('S', 'K', '1'), ('S', 'K'), 'x and parameters batched twice together'),
+    (('N',), ('S', 'N'), ('S',), 'likelihood term: data x, batched parameters'),
+    (('N',), ('S', 'K', 'N'), ('S', 'K'), 'likelihood term: data x, parameters batched twice'),
+]
+
+
+def check_distribution_sample_shape(ctx, rep):
+    m = ctx.prog.module('torchtree.distributions.distributions')
+    cls = m.classes.get('Distribution')
+    fn = next((f for f in cls.body if isinstance(f, ast.FunctionDef) and f.name == '_sample_shape'), None) if cls is not None else None
+    if fn is None:
+        raise AnalysisError('Distribution._sample_shape not found')
+    for xs, bs, want, what in SHAPE_CASES:
+        key = f"Distribution._sample_shape::x{list(xs)}::parameters{list(bs)}"
+        try:
+            r = _Sh({'self.x.tensor.shape': xs, 'self.x.shape': xs, 'self.batch_shape': bs, 'self.distribution.batch_shape': bs}).run(fn.body, {})
+        except Unsupported as u:
+            rep.undecided('C10.S', key, where(m, fn), str(u))
+            continue
+        got = r[1] if r else None
+        rep.check('C10.S', key, got == want, where(m, fn), {'case': what, 'returned': list(got) if isinstance(got, tuple) else got, 'expected': list(want)},
+                  f"Distribution._sample_shape returns {list(got) if isinstance(got, tuple) else got} for x of shape {list(xs)} and parameters of batch shape {list(bs)} ({what}); the sample "
+                  f"dimensions are {list(want)}: with a wrong sample shape JointDistributionModel reduces over the sample axes and returns one pooled number (or mixes components of "
+                  f"different samples)")
+
+# ---------------------------------------------------------------------------
+# C10.C — an element-wise density counts every operand in its sample shape
+# ---------------------------------------------------------------------------
+def check_elementwise_coverage(ctx, rep):
+    """When `_call` returns an element-wise (broadcasting) combination of parameter tensors and tree quantities that all keep the trailing axis, the result carries the
+    sample dimensions of every one of them; `_sample_shape` must count each (else JointDistributionModel sees more leading dimensions than the sample shape and sums them)."""
+    from sa.axes import Axes, K
+    base = 'torchtree.core.model.CallableModel'
+    n = 0
+    for cls in sorted(ctx.classes.subclasses(base), key=lambda c: c.qualname):
+        if cls.is_abstract() or not any(cls.module.name.startswith(p) or cls.module.name == p.rstrip('.') for p in SCOPE_PACKAGES):
+            continue
+        rc, rs = cls.resolve('_call'), cls.resolve('_sample_shape')
+        if not rc or not rs or rc[0] is not cls:
+            continue
+        fn = rc[1]
+        rets = [r for r in ast.walk(fn) if isinstance(r, ast.Return) and r.value is not None]
+        if len(rets) != 1:
+            continue
+        ax = Axes(fn)
+        env = ax.block(fn.body[:fn.body.index(rets[0])] if rets[0] in fn.body else fn.body, {})
+        if ax.kind(rets[0].value, env) != K or ax.reports:
+            continue
+        defs = local_assignments(fn)
+        sources = set()
+        for e in backward_slice(rets[0].value, defs):
+            for x in ast.walk(e):
+                if isinstance(x, ast.Attribute) and isinstance(x.value, ast.Name) and x.value.id == 'self':
+                    par = getattr(x, '_parent', None)
+                    if (isinstance(par, ast.Attribute) and par.attr in ('tensor', 'node_heights')) or (isinstance(par, ast.Attribute) and isinstance(getattr(par, '_parent', None), ast.Call)
+                                                                                                       and par.attr in ('branch_lengths',)):
+                        sources.add(x.attr)
+        if not sources:
+            continue
+        n += 1
+        ss = rs[1]
+        refs = {x.attr for x in ast.walk(ss) if isinstance(x, ast.Attribute) and isinstance(x.value, ast.Name) and x.value.id == 'self'}
+        models = {s_ for s_ in sources if 'tree' in s_ or 'model' in s_}
+        params = sources - models
+        missing = sorted((params - refs if '_parameters' not in refs else set()) | (models - refs if '_models' not in refs else set()))
+        rep.check('C10.C', f"{cls.qualname.replace('torchtree.', '')}::sample-shape-counts-every-operand-of-the-element-wise-density", not missing, where(rs[0].module, ss),
+                  {'operands': sorted(sources), 'counted_by_sample_shape': sorted(refs)},
+                  f"{cls.name}._call returns an element-wise combination of {sorted(sources)} (all keep the trailing axis, so the value carries the sample dimensions of each), but "
+                  f"{rs[0].name}._sample_shape does not count {missing}: with only {missing} batched the model reports a shorter sample shape and JointDistributionModel sums the "
+                  f"samples into one number")
+    rep.analysed['elementwise_densities'] = n
+    if n < 2:
+        rep.incomplete('C10.C', '*', '', f"only {n} element-wise densities recognised")
+
+
 def run(ctx, rep):
     rep.explanation = (
         "Every call of a tensor reduction in the evaluation methods of the density / model / transform / parameter classes and in the likelihood kernels is "
@@ -208,3 +671,16 @@ def run(ctx, rep):
     stale = set(TABLE) - used_table
     for qual, txt in sorted(stale):
         rep.undecided('C10.D', f"table::{qual}::{txt[:40]}", '', 'frozen table entry no longer matches any construct (the table must be re-confirmed)')
+    rep.rule('C10.J', "the joint density classifies each component's value against that component's own sample shape and adds components along the last axis only")
+    rep.rule('C10.P', "in evaluation methods, axes of values that can carry sample dimensions are addressed from the end (no axis index >= 1 counted from the front)")
+    rep.rule('C10.A', "no element-wise operation combines a value that keeps the trailing event axis ([S, 1]) with one that dropped it ([S]) — an [S, S] outer combination of samples")
+    check_joint(ctx, rep)
+    check_front_axes(ctx, rep)
+    from sa import axes
+    axes.check_event_axes(ctx, rep, 'C10.A', SCOPE_PACKAGES, 15)
+    rep.rule('C10.R', "element-wise operations and concatenations combine values of the same rank relative to the sample shape (ranks read from `<sample shape> + (…)` expansions and the documented layout of branch-model rates)")
+    check_ranks(ctx, rep)
+    rep.rule('C10.S', "Distribution._sample_shape, folded over 13 abstract shape cases (x / parameters unbatched, batched separately, batched together, likelihood term), returns the sample dimensions")
+    check_distribution_sample_shape(ctx, rep)
+    rep.rule('C10.C', "a density that is an element-wise combination of parameter tensors and tree quantities counts every one of them in its sample shape")
+    check_elementwise_coverage(ctx, rep)
